@@ -95,7 +95,9 @@ theorem trailing_append (xs ys : List ParamD) (hx : xs.all (·.default.isNone) =
     exact ih hx.2
 
 theorem kwSorted_trailing (l : List ParamD) : trailingDefaults (kwSorted l) = true :=
-  trailing_append _ _ (by simp) (by simp)
+  trailing_append _ _
+    (List.all_eq_true.2 fun x hx => by simpa using (List.mem_filter.1 hx).2)
+    (List.all_eq_true.2 fun x hx => by simpa using (List.mem_filter.1 hx).2)
 
 theorem kwSorted_perm (l : List ParamD) : (kwSorted l).Perm l := by
   unfold kwSorted
@@ -160,6 +162,7 @@ theorem intoArguments_denote (p : PyArguments) (hk : p.kwDefaults.length ≤ p.k
   · rw [intoArguments_some p (by omega)]
     unfold denote
     rw [if_pos ⟨by omega, hk⟩]
+    dsimp only
     have hle : p.defaults.length ≤ (p.posonly ++ p.args).length := by simp; omega
     rw [attachLast_eq_zip _ _ hle, attachLast_eq_zip _ _ hk, zipFrom_append]
     have hl : (zipFrom p.posonly (List.take p.posonly.length
